@@ -22,7 +22,7 @@ func TestC18(t *testing.T) {
 			conf := confs[e.Rng.Intn(len(confs))]
 			g := GenOpts{
 				Kinds: stdKinds, Keys: StdKeys(e.Rng, 3+e.Rng.Intn(6)), NOps: 1 + e.Rng.Intn(70),
-				TTLs: stdTTLs, Sleeps: stdSleeps, LenBeforeBatch: true,
+				TTLs: ttlProfile(e.Rng), Sleeps: stdSleeps, LenBeforeBatch: true,
 			}
 			r := RunBackendOps(t, e.Rng, fl, conf, g)
 			kinds := map[string]bool{}
